@@ -67,6 +67,7 @@ type WProg struct {
 	Seed    uint64  `json:"seed"`
 	AllK    bool    `json:"allk"` // expand: run once per write-side op index and fault kind
 	Kinds   []string `json:"kinds"`
+	MinPool int      `json:"minpool"` // smallest buffer size among the connections sharing this program's pool (concurrent groups)
 }
 
 // ---- mask key source -------------------------------------------------------
@@ -515,7 +516,7 @@ func runWriterShared(p *WProg, fault *WFault, id string, g *shareGroup) (evs []E
 	// connections that share a pool take whatever buffer the pool hands out: the guaranteed buffer size of a pooled
 	// connection is the smallest size configured among the sharers (only "a control message larger than the buffer may
 	// be rejected" depends on it)
-	minPooled := 0
+	minPooled := p.MinPool
 	for _, c := range p.Conns {
 		wb := c.WBuf
 		if wb <= 0 {
@@ -906,8 +907,19 @@ func RunShare(p *WProg) (evs []Ev) {
 	}
 	res := make([][]Ev, len(p.Conns))
 	var wg sync.WaitGroup
+	// every connection of the group may be handed any sharer's buffer
+	groupMin := 0
+	for _, c := range p.Conns {
+		wb := c.WBuf
+		if wb <= 0 {
+			wb = 4096
+		}
+		if c.Pool && (groupMin == 0 || wb < groupMin) {
+			groupMin = wb
+		}
+	}
 	for i := range p.Conns {
-		sub := &WProg{ID: p.ID, Conns: []WConn{p.Conns[i]}, PMs: p.PMs, Seed: p.Seed + uint64(i)}
+		sub := &WProg{ID: p.ID, Conns: []WConn{p.Conns[i]}, PMs: p.PMs, Seed: p.Seed + uint64(i), MinPool: groupMin}
 		for _, o := range p.Ops {
 			if o.C == i {
 				o2 := o
